@@ -301,3 +301,28 @@ Theorem C19_source_invalidation :
     peq (src_invalidate_cache u h refs key c) (invalidate_cache u h refs key c').
 Proof. exact @tie_invalidate_cache. Qed.
 Print Assumptions C19_source_invalidation.
+
+(* ---------- every schedule of concurrent calls ---------- *)
+(* The footprint invariant also holds when any number of RoundTrip calls and the background revalidations they start run
+   interleaved, one store / origin operation at a time, under every schedule (Conc.v; Proofs/FootConc.v): from a store
+   satisfying it for the events known before, the store reached satisfies it for those events and the ones of the phase —
+   and therefore (footprint_keys, footprint_index) the same bound on keys and index lengths applies. *)
+From HC Require Import Conc.
+From HC.Proofs Require Import FootConc.
+Theorem C19_concurrent : forall T qs w sched cw n H0 reqs varies,
+  InvF (Pl H0) (VsL H0) (w_store w) ->
+  run_schedule T sched {| cw_w := w; cw_fg := map TStart qs; cw_bg := []; cw_trace := [] |} 0 = (cw, n) ->
+  let Lf := w_log (cw_w cw) ++ H0 in
+  (forall q0, Pl Lf q0 -> exists q1, In q1 reqs /\ make_url_key (q_url q1) = make_url_key (q_url q0) /\ q_hdr q1 = q_hdr q0) ->
+  (forall v, VsL Lf v -> In v varies) ->
+  let s := w_store (cw_w cw) in
+  (forall k, amem k s = true -> In k (candidate_keys reqs varies)) /\
+  (forall u l, get_refs s u = Some l -> NoDup (some_ids l) /\ (List.length l <= List.length (candidate_keys reqs varies))%nat).
+Proof.
+  intros T qs w sched cw n H0 reqs varies HI Hrun Lf Hreqs Hvar s.
+  pose proof (concurrent_footprint T qs w sched cw n H0 HI Hrun) as HF. fold Lf in HF. fold s in HF.
+  split.
+  - intros k Hk. eapply footprint_keys; eassumption.
+  - intros u l Hl. split; [destruct HF as [_ I2]; apply (I2 _ _ Hl)|]. eapply footprint_index; eassumption.
+Qed.
+Print Assumptions C19_concurrent.
